@@ -399,18 +399,22 @@ def in_f1(prog):
     return True
 
 
+def _opd_ok(o, f1=False):
+    return (o[0] == 'lit' and o[1] >= 0) or (o[0] == 'cnt' and not f1)
+
+
 def _test_ok(t, f1=False):
     if t[0] == 'switch':
         return not f1
     if t[0] in ('true', 'false'):
         return True
     if t[0] == 'odd':
-        return t[1][0] == 'lit' and t[1][1] >= 0
-    return t[0] == 'num' and t[1][0] == 'lit' and t[3][0] == 'lit' and t[1][1] >= 0 and t[3][1] >= 0
+        return _opd_ok(t[1], f1)
+    return t[0] == 'num' and _opd_ok(t[1], f1) and _opd_ok(t[3], f1)
 
 
 def _case_head(n):
-    return n[1][0] == 'lit' and n[1][1] >= 0 and len(n[2]) >= 1
+    return _opd_ok(n[1]) and len(n[2]) >= 1
 
 
 def _words(l):
@@ -424,7 +428,7 @@ def _opt_ok(o):
 def _fa(n):
     """Spec/MacroPrint.fa_node: argument text"""
     k = n[0]
-    if k in ('word', 'let', 'newsw', 'setsw'):
+    if k in ('word', 'let', 'newsw', 'setsw', 'step', 'setc', 'addc'):
         return True
     if k == 'group':
         return all(_fa(x) for x in n[1])
@@ -442,7 +446,7 @@ def _fa(n):
 def _fb(np, n, d):
     """Spec/MacroPrint.fb_node: body of a macro with np parameters, nesting depth at most d"""
     k = n[0]
-    if k in ('word', 'let', 'newsw', 'setsw'):
+    if k in ('word', 'let', 'newsw', 'setsw', 'step', 'setc', 'addc'):
         return True
     if k == 'param':
         return 1 <= n[1] <= np
@@ -461,7 +465,7 @@ def _fb(np, n, d):
 
 def _f2(n):
     k = n[0]
-    if k in ('word', 'let', 'newsw', 'setsw'):
+    if k in ('word', 'let', 'newsw', 'setsw', 'step', 'setc', 'addc'):
         return True
     if k == 'group':
         return all(_f2(x) for x in n[1])
